@@ -7,6 +7,8 @@ list around the window and any parser state in between:
   it does not change the result of `parse` at all — same `Ok` / `Err`, same root, same node array (definitions, links and
   tokens).
 This is the position where no implicit list can arise (the node before the trivia is an operator, not a value).
+For the whole operator fragment `value (trivia* binop trivia* value)*` (any number of trivia tokens between any two
+tokens) see `Garnish.Props.C02Parse.C18_parse_whitespace_insensitive_fragment`.
 The general statement (any number of trivia tokens at any position that does not change list detection) is `C18_parse_trivia`
 (a `def`); the generator-level check is `gen_trivia_pairs` / `same_tree` in tools/gen/parsegen.py.
 -/
